@@ -375,10 +375,18 @@ func (cc *chainCtx) decomposeOr(v ssa.Value) (int64, []orItem, bool) {
 			}
 			chs = append(chs, ch{b, its})
 		}
+		differ := false
 		for _, h := range chs[1:] {
 			if h.base != chs[0].base {
-				cc.err = fmt.Sprintf("bases differ at %s: %x vs %x", x.Name(), h.base, chs[0].base)
-				return 0, nil, false
+				differ = true
+			}
+		}
+		if differ {
+			// the edges carry different constants (`return flagA` / `return flagB` of a selecting helper, or `x = k` per
+			// case): the same as 0|k per edge
+			for i := range chs {
+				chs[i].its = append([]orItem{{Mask: chs[i].base}}, chs[i].its...)
+				chs[i].base = 0
 			}
 		}
 		// common prefix by (mask, cond-if)
